@@ -9,9 +9,10 @@ Guards, operators and codes are the ones regenerated from the source (`Generated
 the code that exists; the theorems in Props/C11 hold for the repaired values and re-open when they change.
 -/
 import Generated.FacConstants
+import Generated.FacC11
 
 namespace FlexModel.Fac.Mapping
-open Generated.Fac
+open Generated.Fac Generated.Fac11
 
 /-- Python `int(x)` on a float: truncation toward zero -/
 def trunc (x : Rat) : Int := if 0 ≤ x then x.floor else x.ceil
@@ -53,12 +54,19 @@ def altitudeG (p : AltP) (x : Rat) : Int :=
 
 def altitude (p : AltP) : Option Rat → Int | none => 800001 | some x => altitudeG p x
 
-/-- `create_altitude_confidence`: first ladder step that the value is below -/
-def altConfFrom : List (Rat × String) → Rat → String
+/-- `create_altitude_confidence`: first ladder step `k` with `epv <op> k` (the operator is regenerated from the
+source: 1 `<=` as the CDD says, 0 `<` in the unrepaired code) -/
+def altConfFromG (op : Nat) : List (Rat × String) → Rat → String
   | [], _ => "outOfRange"
-  | (k, name) :: rest, epv => if epv < k then name else altConfFrom rest epv
+  | (k, name) :: rest, epv => if cmpOpR op epv k then name else altConfFromG op rest epv
 
-def altConf : Option Rat → String | none => "unavailable" | some epv => altConfFrom ALT_CONF_LADDER epv
+/-- the bound of the class chosen by `altConfFromG` (none = outOfRange) -/
+def altBoundFromG (op : Nat) : List (Rat × String) → Rat → Option Rat
+  | [], _ => none
+  | (k, _) :: rest, epv => if cmpOpR op epv k then some k else altBoundFromG op rest epv
+
+def altConf : Option Rat → String | none => "unavailable" | some epv => altConfFromG ALT_CONF_OP ALT_CONF_LADDER epv
+def altBound (epv : Rat) : Option Rat := altBoundFromG ALT_CONF_OP ALT_CONF_LADDER epv
 
 /-! ### heading -/
 def headingG (modulus : Nat) (x : Rat) : Int :=
@@ -104,8 +112,10 @@ structure Err where
   raw : Rat
   x100 : Rat
 
+/-- `create_position_confidence`: epy is the north-south error, epx the east-west one; the orientation values are
+regenerated from the source (0 / 900 after the repair, 0 / 0 before) -/
 def ellipseWith (ax : Rat → Int) (epx epy : Err) : Ellipse :=
-  if epy.raw ≥ epx.raw then ⟨ax epy.x100, ax epx.x100, 0⟩ else ⟨ax epx.x100, ax epy.x100, 0⟩
+  if epy.raw ≥ epx.raw then ⟨ax epy.x100, ax epx.x100, ELLIPSE_ORIENT_NS⟩ else ⟨ax epx.x100, ax epy.x100, ELLIPSE_ORIENT_EW⟩
 
 def camEllipse : Option (Err × Err) → Ellipse
   | none => ⟨4095, 4095, 3601⟩
@@ -122,10 +132,238 @@ def vamEllipse : Option (Err × Err) → Ellipse
 /-- `GenerationDeltaTime.from_timestamp` on an exact millisecond UTC timestamp -/
 def gdt (utcMs : Int) : Int := (utcMs - ITS_EPOCH_MS + ELAPSED_MILLISECONDS) % 65536
 
-/-- `as_timestamp_in_certain_point`: absolute UTC ms of a generationDeltaTime seen at `rxMs` -/
-def reconstruct (msec rxMs : Int) : Int :=
+/-- `as_timestamp_in_certain_point`: absolute UTC ms of a generationDeltaTime seen at `rxMs`; `op` is the operator of
+`if transformed_timestamp <op> utc_timestamp_in_millis` (regenerated: 1 `<=`) -/
+def reconstructG (op : Nat) (msec rxMs : Int) : Int :=
   let cycles := Int.tdiv (rxMs - ITS_EPOCH_MS + ELAPSED_MILLISECONDS) 65536
   let t := msec + 65536 * cycles + ITS_EPOCH_MS - ELAPSED_MILLISECONDS
-  if t ≤ rxMs then t else msec + 65536 * (cycles - 1) + ITS_EPOCH_MS - ELAPSED_MILLISECONDS
+  if cmpOp op t rxMs then t else msec + 65536 * (cycles - 1) + ITS_EPOCH_MS - ELAPSED_MILLISECONDS
+
+def reconstruct (msec rxMs : Int) : Int := reconstructG REC_CMP_OP msec rxMs
+
+/-! ### reading a clock of float seconds in integer milliseconds -/
+/-- Python `round(x)` on the exact value of a float: nearest integer, ties to even -/
+def pyRound (x : Rat) : Int :=
+  let f := x.floor
+  let d := x - (f : Rat)
+  if d < 1 / 2 then f else if 1 / 2 < d then f + 1 else if f % 2 = 0 then f else f + 1
+
+/-- `round(t * 1000000) // 1000` on `p6` = the exact value of the double `t * 1000000`
+(`GenerationDeltaTime.from_timestamp`, and the reception managements after the repair) -/
+def msOfMicros (p6 : Rat) : Int := pyRound p6 / 1000
+
+/-- the receiver's clock reading: `exact = 1` → `round(t*1000000)//1000`, otherwise the truncating `int(t*1000)` on
+`p3` = the exact value of the double `t * 1000` -/
+def clockMs (exact : Nat) (p3 p6 : Rat) : Int := if exact = 1 then msOfMicros p6 else trunc p3
+
+/-! ### vehicle role, and the send state of the CAM transmission management that an encoding failure leaves untouched -/
+/-- `_build_lf_container`: `_VEHICLE_ROLE_NAMES[role]` if the index exists, else "default" -/
+def roleName (table : List String) (role : Nat) : String := table.getD role "default"
+
+structure Tx where
+  camCount : Nat := 0
+  lastLf : Option Int := none
+  /-- one entry per CAM handed to BTP, newest first: the vehicleRole of its low-frequency container, if included -/
+  out : List (Option String) := []
+  skipped : Nat := 0
+  deriving Repr, DecidableEq
+
+/-- `_should_include_lf` -/
+def includeLf (s : Tx) (now : Int) : Bool :=
+  s.camCount == 0 || (match s.lastLf with | none => true | some t => decide (now - t ≥ (T_GEN_CAM_LF_MS : Int)))
+
+/-- `_generate_and_send_cam` as far as the role is concerned: the encoder raises on a name that is not in the
+compiled enumeration, the exception is swallowed (Annex B.2.5) and NO state is updated; otherwise the CAM is sent and
+`_update_send_state` runs -/
+def txStep (table enum : List String) (role : Nat) (s : Tx) (now : Int) : Tx :=
+  let lf := includeLf s now
+  let name := roleName table role
+  if lf && !(enum.contains name) then { s with skipped := s.skipped + 1 }
+  else { camCount := s.camCount + 1, lastLf := if lf then some now else s.lastLf,
+         out := (if lf then some name else none) :: s.out, skipped := s.skipped }
+
+def txRun (table enum : List String) (role : Nat) (ticks : List Int) : Tx :=
+  ticks.foldl (txStep table enum role) {}
+
+/-! ### reports, the report cache of the CAM transmission management, histories -/
+/-- a position/time/velocity report: every field optional; values are the exact doubles the builders see -/
+structure Report where
+  lat : Option Rat := none       -- lat * 10000000
+  lon : Option Rat := none       -- lon * 10000000
+  alt : Option Rat := none       -- altHAE * 100
+  epx : Option Err := none
+  epy : Option Err := none
+  epv : Option Rat := none
+  epd : Option (Rat × Rat) := none   -- (epd, epd * 10)
+  track : Option Rat := none     -- track * 10
+  speed : Option Rat := none     -- speed * 100
+
+def Report.errs (r : Report) : Option (Err × Err) :=
+  match r.epx, r.epy with
+  | some a, some b => some (a, b)
+  | _, _ => none
+
+/-- `{**old, **new}`: a field of the new report wins, a missing one keeps the old value -/
+def mergeReport (old new : Report) : Report :=
+  { lat := new.lat <|> old.lat, lon := new.lon <|> old.lon, alt := new.alt <|> old.alt,
+    epx := new.epx <|> old.epx, epy := new.epy <|> old.epy, epv := new.epv <|> old.epv,
+    epd := new.epd <|> old.epd, track := new.track <|> old.track, speed := new.speed <|> old.speed }
+
+/-- `CAMTransmissionManagement.location_service_callback`: `replace = 1` (regenerated) stores the report itself -/
+def cacheStep (replace : Nat) (cache : Option Report) (r : Report) : Option Report :=
+  if replace = 1 then some r else
+    match cache with
+    | none => some r
+    | some o => some (mergeReport o r)
+
+def cacheRun (replace : Nat) (rs : List Report) : Option Report := rs.foldl (cacheStep replace) none
+
+/-- the report-derived data elements of a CAM / VAM -/
+structure Fields where
+  lat : Int
+  lon : Int
+  ell : Ellipse
+  alt : Int
+  altConf : String
+  heading : Int
+  hconf : Int
+  speed : Int
+  deriving Repr, DecidableEq
+
+def camFields (r : Report) : Fields :=
+  ⟨latitude r.lat, longitude r.lon, camEllipse r.errs, altitude camAlt r.alt, altConf r.epv,
+   heading CAM_HEADING_MOD r.track, headingConf r.epd, camSpeed r.speed⟩
+
+def vamFields (r : Report) : Fields :=
+  ⟨latitude r.lat, longitude r.lon, vamEllipse r.errs, altitude vamAlt r.alt, altConf r.epv,
+   heading VAM_HEADING_MOD r.track, headingConf r.epd, vamSpeed r.speed⟩
+
+/-- the CAM built at a T_CheckCamGen tick after the reports `rs` (none: no report yet, nothing is generated) -/
+def camAfter (replace : Nat) (rs : List Report) : Option Fields := (cacheRun replace rs).map camFields
+
+/-! ### DENM event position of the emergency-vehicle service (one DENM per report) -/
+structure EvPos where
+  lat : Int
+  lon : Int
+  alt : Int
+  deriving Repr, DecidableEq
+
+def evUnavailable : EvPos := ⟨900000001, 1800000001, 800001⟩
+
+/-- `trigger_denm_sending`: `fresh = 1` (regenerated) starts from the all-unavailable position, otherwise from the
+position of the previous report -/
+def evaStep (fresh : Nat) (p : EvPos) (r : Report) : EvPos :=
+  let base := if fresh = 1 then evUnavailable else p
+  ⟨(r.lat.map trunc).getD base.lat, (r.lon.map trunc).getD base.lon, (r.alt.map (altitudeG denmAlt)).getD base.alt⟩
+
+def evaRun (fresh : Nat) (rs : List Report) : EvPos := rs.foldl (evaStep fresh) evUnavailable
+
+/-- the stateless mapping of one report -/
+def denmPos (r : Report) : EvPos := ⟨latitude r.lat, longitude r.lon, altitude denmAlt r.alt⟩
+
+/-! ### cluster information container of the VRU service, built while another thread completes a cluster break-up -/
+structure Cluster where
+  id : Nat
+  radius : Rat
+  cardinality : Nat
+  deriving DecidableEq
+
+structure Mgr where
+  leader : Bool
+  cluster : Option Cluster
+  deriving DecidableEq
+
+inductive InfoRes where
+  | absent                                  -- `None`: no container
+  | info (id : Nat) (radius : Int) (card : Nat)
+  | fail                                    -- AttributeError: 'NoneType' object has no attribute ...
+  deriving DecidableEq
+
+/-- `{"radius": max(1, int(cluster.radius))}` etc. -/
+def infoOf (c : Cluster) : InfoRes := .info c.id (max 1 (trunc c.radius)) c.cardinality
+
+/-- the whole body of `get_cluster_information_container` as one atomic block -/
+def infoAtomic (m : Mgr) : InfoRes :=
+  match m.leader, m.cluster with
+  | true, some c => infoOf c
+  | _, _ => .absent
+
+/-- `update()` at the end of the break-up warning (always one `with self._lock` block): the cluster is dropped -/
+def breakupDone (_ : Mgr) : Mgr := ⟨false, none⟩
+
+/-- program counter of the transmitting thread -/
+inductive TxPc where
+  | start
+  | checked           -- state check passed (lock released again when the reads are outside the lock)
+  | done (r : InfoRes)
+  deriving DecidableEq
+
+structure Conc where
+  m : Mgr
+  tx : TxPc
+  updDone : Bool
+  deriving DecidableEq
+
+/-- one step of the transmitting thread.  `locked` (regenerated: no access outside `with self._lock`): check and
+reads are one step; otherwise the check is one step and the reads of `self._cluster` a later one -/
+def txThread (locked : Bool) (c : Conc) : Conc :=
+  match c.tx with
+  | .start =>
+    if locked then { c with tx := .done (infoAtomic c.m) }
+    else match c.m.leader, c.m.cluster with
+      | true, some _ => { c with tx := .checked }
+      | _, _ => { c with tx := .done .absent }
+  | .checked =>
+    match c.m.cluster with
+    | some cl => { c with tx := .done (infoOf cl) }
+    | none => { c with tx := .done .fail }
+  | .done _ => c
+
+def updThread (c : Conc) : Conc := if c.updDone then c else { c with m := breakupDone c.m, updDone := true }
+
+/-- a schedule: `true` = the transmitting thread runs next, `false` = the maintenance thread -/
+def concStep (locked : Bool) (c : Conc) (pick : Bool) : Conc := if pick then txThread locked c else updThread c
+
+/-- run a schedule, then let the transmitting thread finish -/
+def concRun (locked : Bool) (m : Mgr) (sched : List Bool) : InfoRes :=
+  let c := sched.foldl (concStep locked) ⟨m, .start, false⟩
+  match (txThread locked (txThread locked c)).tx with
+  | .done r => r
+  | _ => .fail
+
+def infoLocked : Bool := CLUSTER_INFO_UNLOCKED.isEmpty
+
+/-! ### UPER of constrained whole numbers as asn1tools produces it (fixed part of a SEQUENCE of constrained INTEGERs) -/
+/-- the encoder's accumulator: all bits so far as one natural number, and their count -/
+structure Bits where
+  value : Nat
+  len : Nat
+  deriving Repr, DecidableEq
+
+/-- `integer_as_number_of_bits(maximum - minimum)` -/
+def nbits (size : Nat) : Nat := if size = 0 then 0 else size.log2 + 1
+
+/-- `append_non_negative_binary_integer(x, n)`: `value <<= n; value |= x` — NO check that x fits into n bits -/
+def Bits.append (b : Bits) (x n : Nat) : Bits := ⟨b.value <<< n ||| x, b.len + n⟩
+
+/-- a constrained INTEGER (lo..hi) -/
+structure IntField where
+  lo : Int
+  hi : Int
+  deriving Repr, DecidableEq
+
+def IntField.width (f : IntField) : Nat := nbits (f.hi - f.lo).toNat
+
+/-- `Integer.encode`: `data - minimum` in `number_of_bits` bits -/
+def encodeInts (fs : List (IntField × Int)) : Bits :=
+  fs.foldl (fun b fv => b.append (fv.2 - fv.1.lo).toNat fv.1.width) ⟨0, 0⟩
+
+/-- decoding from the END of the bit string: the fields in reverse order -/
+def decodeRev (value : Nat) : List IntField → List Int
+  | [] => []
+  | f :: rest => (f.lo + ((value % 2 ^ f.width : Nat) : Int)) :: decodeRev (value >>> f.width) rest
+
+/-- `Integer.decode` over the whole sequence -/
+def decodeInts (b : Bits) (fs : List IntField) : List Int := (decodeRev b.value fs.reverse).reverse
 
 end FlexModel.Fac.Mapping
